@@ -291,6 +291,13 @@ def specs(tier):
         {"id": "a", "kind": "TaskStartAfter", "task": "t2", "value": 2, "mode": "lax"},
         {"id": "b", "kind": "TaskEndBefore", "task": "t1", "value": 7, "mode": "lax"}],
         objectives=[{"kind": "FlowtimeSingleResource", "resource": "w0", "interval": [1, 7]}])))
+    # objectives over optional tasks: an unscheduled task contributes nothing, scheduling is forced for one of them
+    t3o = lambda: [fam.fx("t0", 2, priority=3), fam.vr("t1", 1, 2, priority=1, optional=True),  # noqa
+                   fam.fx("t2", 1, priority=2, optional=True)]
+    for okind in ("Flowtime", "Priorities", "StartEarliest", "StartLatest"):
+        out.append((f"{okind}.optional", fam.base(6, t3o(), workers=W, requirements=on, constraints=away + [
+            {"id": "f", "kind": "ForceScheduleNOptionalTasks", "tasks": ["t1", "t2"], "n": 1, "mode": "min"}],
+            objectives=[{"kind": okind}])))
     out.append(("Makespan.nohorizon", dict(fam.base(6, t3(), workers=W, requirements=on, constraints=away,
                                                     objectives=[{"kind": "Makespan"}]), problem={"name": "P"})))
     out.append(("ResourceUtilization", fam.base(5, [fam.vr("t0", 1, 3), fam.fx("t1", 1)], workers=W,
